@@ -12,8 +12,8 @@ from .. import harness, util
 PROPERTY = 'C12'
 LEVEL = 'exploration'
 RULE = ('Random edit histories of 5-60 operations over a pool of 1-5 molecules: add_node (fresh high / fresh low / '
-        'existing key), add_nodes_from, remove_node (random / highest), remove_nodes_from (list and one-shot '
-        'iterator), add_edge, remove_edge, add_interaction (valid / unknown atom), add_or_replace_interaction, '
+        'existing key), add_nodes_from, remove_node (random / highest), remove_nodes_from (list, set, tuple, one-shot '
+        'iterator, live views of the molecule itself), add_edge, remove_edge, add_interaction (valid / unknown atom), add_or_replace_interaction, '
         'remove_interaction, remove_matching_interaction, copy, subgraph, merge_molecule (other molecule, copy of '
         'itself, Block.to_molecule output, a Block), make_edges_from_interaction_type, MergeAllMolecules, MergeChains. '
         'After each operation every molecule of the pool (also sources of earlier copies/subgraphs) is compared with '
@@ -321,14 +321,26 @@ def run_history(rnd, nops, b):
                 ks = rnd.sample(keys, rnd.randint(1, min(3, len(keys))))
                 if rnd.random() < 0.3:
                     ks.append(10 ** 6)  # absent node: silently ignored (networkx semantics)
-                as_iter = rnd.random() < 0.3
-                m.remove_nodes_from(iter(list(ks)) if as_iter else list(ks))
+                form = rnd.choice(['list', 'list', 'iterator', 'set', 'tuple', 'neighbours-view', 'neighbours-view', 'nodes-view'])
+                if form == 'neighbours-view':
+                    # "remove everything bonded to atom n": the argument is a live view of the molecule itself
+                    n0 = rnd.choice(keys)
+                    ks = [k for k in keys if frozenset((n0, k)) in s.edges and k != n0]
+                    arg = m[n0]
+                elif form == 'nodes-view':
+                    if len(keys) > 4:
+                        form, arg = 'list', list(ks)
+                    else:
+                        ks, arg = list(keys), m.nodes       # "remove all atoms" of a small molecule
+                else:
+                    arg = {'list': list, 'iterator': lambda x: iter(list(x)), 'set': set, 'tuple': tuple}[form](ks)
+                m.remove_nodes_from(arg)
                 for k in ks:
                     if k in s.nodes:
                         s.remove_node(k)
                 s.changed_since_merge = True
-                entry += [ks, 'iterator' if as_iter else 'list']
-                b.feat('op_remove_nodes_from' + ('_iterator' if as_iter else ''))
+                entry += [ks, form]
+                b.feat('op_remove_nodes_from_' + form)
             elif op == 'add_edge' and len(keys) >= 2:
                 u, v = rnd.sample(keys, 2)
                 a = {'distance': round(rnd.random(), 3)} if rnd.random() < 0.3 else {}
